@@ -15,10 +15,10 @@ Model for C20 (after USE keyspace succeeds, all requests run on connections in t
 
 The refiller is a single task: every `select!` arm runs to completion, so one arm = one atomic `step`.
 The tasks spawned by `PoolRefiller::use_keyspace` run concurrently with it: writing the `USE` on a snapshot
-connection (`taskSubmit`) and the node answering the oldest statement in flight on a connection (`serve`) are
-separate events. Every connection carries its queue of `USE` statements in flight; the abstract server executes
-the requests of one connection in order (`serve` pops the head), a timed-out task leaves what it wrote in
-flight. A user statement `USE x` sent through `Session::query*` is the event `userUse`. The server side of a
+connection (`taskSubmit`) and the node answering a statement in flight on a connection are separate events.
+Every connection carries its queue of `USE` statements in flight; the node answers the oldest one (`serve`) or -
+CQL allows it - any later one (`serveOoo`, which marks the connection as not covered by the claims); a
+timed-out task leaves what it wrote in flight. A user statement `USE x` sent through `Session::query*` is the event `userUse`. The server side of a
 connection (`serverKs`, `acked`, `queue`) is part of the state. The ghost `overlap` is re-evaluated at every
 request (newest request arrived while an older one was unanswered), so it recovers after an overlap has drained.
 Import-free (core only).
@@ -132,7 +132,8 @@ structure Conn (K : Type) where
   shard : Nat := 0                -- `ShardInfo.shard` (0 without shard info)
   sharder : Option Nat := none    -- `nr_shards` of the node as this connection's SUPPORTED said
   queue : List (Waiter × K) := [] -- `USE` statements written on this connection and not yet answered, oldest first
-  userMark : Bool := false        -- ghost: a user-issued `USE` was written here after the newest task's own `USE`
+  unclaimed : Bool := false        -- ghost "not covered by the claim": since the newest task wrote its own `USE` here, a
+                                  -- user-issued `USE` was written behind it or the node answered a request out of order
 
 /-- What the server does with one `USE k` (the connection being alive). -/
 inductive SrvReply (K : Type) where
@@ -177,6 +178,7 @@ inductive Ev (K : Type) where
   | useKs (k : K)                                   -- the refiller receives a `UseKeyspaceRequest`
   | taskSubmit (t i : Nat)                          -- task `t` writes its `USE` on its snapshot connection `i`
   | serve (i : Nat) (r : SrvReply K)                -- the node answers the oldest `USE` in flight on connection `i`
+  | serveOoo (i j : Nat) (r : SrvReply K)           -- the node answers, OUT OF ORDER, the `USE` at position j+1 of `i`'s queue
   | taskFinish (t : Nat)                            -- `join_all` done: answer with `use_keyspace_result`
   | taskTimeout (t : Nat)                           -- `connect_timeout` elapsed first (what is in flight stays in flight)
   | refill                                          -- the scheduled refill fires: `start_filling`
@@ -291,7 +293,7 @@ def step (p : Pool K) : Ev K → Pool K
         let c := p.net i
         let newest := p.tasks.head?.map (·.id) == some tid
         { p with net := setConn p.net i { c with queue := c.queue ++ [(.task tid, t.ks)],
-                                                 userMark := if newest then false else c.userMark },
+                                                 unclaimed := if newest then false else c.unclaimed },
                  tasks := modifyTask p.tasks tid fun t => { t with submitted := i :: t.submitted } }
   | .serve i r =>
     -- the node answers the oldest `USE` in flight on `i` (a broken connection fails it instead); the answer goes
@@ -303,6 +305,26 @@ def step (p : Pool K) : Ev K → Pool K
       let (c', res) : Conn K × UseRes :=
         if c.broken then (c, .error .broken) else serveUse c k r
       let p := { p with net := setConn p.net i { c' with queue := rest } }
+      match w with
+      | .user => p
+      | .task tid =>
+        match findTask p.tasks tid with
+        | none => p
+        | some t =>
+          if t.resp.isSome || (t.results.lookup i).isSome then p
+          else { p with tasks := modifyTask p.tasks tid fun t => { t with results := (i, res) :: t.results } }
+  | .serveOoo i j r =>
+    -- CQL allows a node to execute the requests of one connection in any order: here it answers the statement at
+    -- position j+1 while older ones are still in flight. Such a connection is marked: nothing is claimed about it
+    -- until the next use-keyspace task writes its own `USE` (with at most one statement in flight this event is
+    -- impossible: position j+1 does not exist)
+    match (p.net i).queue[j + 1]? with
+    | none => p
+    | some (w, k) =>
+      let c := p.net i
+      let (c', res) : Conn K × UseRes :=
+        if c.broken then (c, .error .broken) else serveUse c k r
+      let p := { p with net := setConn p.net i { c' with queue := c.queue.eraseIdx (j + 1), unclaimed := true } }
       match w with
       | .user => p
       | .task tid =>
@@ -358,7 +380,7 @@ def step (p : Pool K) : Ev K → Pool K
     -- a request picked the published connection `i` and wrote the user's `USE x` on it
     if p.conns.contains i && !(p.net i).broken then
       let c := p.net i
-      { p with net := setConn p.net i { c with queue := c.queue ++ [(.user, x)], userMark := true } }
+      { p with net := setConn p.net i { c with queue := c.queue ++ [(.user, x)], unclaimed := true } }
     else p
 
 def run (p : Pool K) (evs : List (Ev K)) : Pool K := evs.foldl step p
